@@ -34,6 +34,9 @@ Definition F := false.
 """
 
 
+KNOWN_F1 = "F1-reestablish-signs-unrecorded-counterparty-commitment"
+
+
 def cb(b):
     return "T" if b else "F"
 
@@ -118,6 +121,7 @@ class NodeTrace:
         self.bcast_unsigned = []
         self.signed_txids = set()
         self.reest_sent = []      # (step, nl, nr, view before)
+        self.sc_signed = []       # (number, txid8, step, signed_on_reestablish_while_not_awaiting)
 
     def add_step(self, step, obs):
         n = self.n
@@ -186,6 +190,10 @@ class NodeTrace:
                     self.events.append(("announce", num - 2, args["next_point"]))
             elif kind == "sign_holder_htlc":
                 self.htlc_signs.append((len(self.events), num))
+        for l in log:
+            if l[0] == "sign_counterparty":
+                unrec = bool(act == "deliver" and mine and t == "reest" and prev is not None and not prev["aw"])
+                self.sc_signed.append((l[1], l[2] if len(l) > 2 else "", step["i"], unrec))
         # secrets this node released, as seen on the wire
         rel = [l[1] for l in log if l[0] == "release"]
         raas = [m for m in obs.get("sent", []) if m.get("t") == "raa"]
@@ -246,6 +254,19 @@ def judge_node(tr):
             vh = e[1]
         elif e[0] == "release":
             rels.append(e[1])
+    # a number may be signed again only as a retransmission of the SAME commitment transaction
+    seen = {}
+    unrec_numbers = set()
+    for (num, txid, sti, unrec) in tr.sc_signed:
+        if unrec:
+            unrec_numbers.add(num)
+        if num in seen and seen[num][0] != txid and txid and seen[num][0]:
+            known = num in unrec_numbers
+            out.append({"why": "a second, different counterparty commitment transaction was signed for number %d (step %d: %s, earlier at step %d: %s) while it and its predecessor are unrevoked: a new commitment signed with more than one earlier one unrevoked"
+                               % (num, sti, txid, seen[num][1], seen[num][0]),
+                        "key_override": KNOWN_F1 if known else None})
+        if num not in seen or not seen[num][0]:
+            seen[num] = (txid, sti)
     for st, txid in tr.bcast_unsigned:
         out.append({"why": "a transaction spending the funding output was broadcast that was not signed through sign_holder_commitment (step %d, txid %s)" % (st, txid)})
     return out
@@ -311,7 +332,7 @@ def revoke_corr(ctx, model_ok):
         for f in judge_node(tr):
             f["replay"] = rp
             f["node"] = tr.n
-            f["key"] = f["why"].split(":")[0][:60]
+            f["key"] = f.pop("key_override", None) or f["why"].split(":")[0][:60]
             res["judge_fails"].append(f)
     res["judge_fails"] += panics
     # ---- model
